@@ -13,12 +13,84 @@ from . import capcommon
 from . import prim_common
 
 
+BLOCK_READERS = {"memchr": (0, 2), "memrchr": (0, 2), "rawmemchr": (0, None), "memcmp": (None, 2), "bcmp": (None, 2), "wmemchr": (0, 2), "wmemcmp": (None, 2),
+                 "memmem": (None, None)}
+STRING_DIRS = ("src/str/", "src/extstr/", "src/wchar/", "src/extwchar/", "src/os/", "src/io/")
+
+
+def terminator_rule(prog, report, funcs=None):
+    """clause 'at most slen elements or up to and including the terminator, whichever comes first': a string operand is never handed to a
+    libc block reader (memchr, memcmp, wmemchr ...: they do not stop at a NUL) with a length that is one of the function's declared
+    maxima -- the bytes between the terminator and the declared maximum are then read (and, for a searcher, take part in the answer).
+    A length that was *measured* (the result of strnlen_s/strlen on that operand) is fine.  The mem* family (src/mem, src/extmem) works
+    on memory regions, not strings, and is not subject to this clause.  Returns the number of block-reader calls on parameters judged."""
+    n = 0
+    for fn in (funcs if funcs is not None else [f for f in prog.allfuncs if f.mod["tu"].startswith(STRING_DIRS)]):
+        ptrs = {p["id"]: p["name"] for p in fn.j["params"] if p["ty"].endswith("*")}
+        ints = {p["id"]: p["name"] for p in fn.j["params"] if p["ty"] in ("i64", "i32")}
+        if not ptrs:
+            continue
+
+        def proot(o, depth=0):
+            while o.get("k") == "v" and depth < 8:
+                if o["id"] in ptrs:
+                    return o["id"]
+                d = fn.defs.get(o["id"])
+                if d is None:
+                    return None
+                if d["op"] == "bitcast":
+                    o = d["ops"][0]
+                elif d["op"] == "getelementptr":
+                    o = d["base"]
+                elif d["op"] == "phi":
+                    rs = {proot(x["v"], depth + 1) for x in d["incoming"] if x["v"].get("id") != d["id"]}
+                    return rs.pop() if len(rs) == 1 else None
+                else:
+                    return None
+                depth += 1
+            return None
+
+        def declared(o, depth=0):
+            """name of the size parameter the length is (a multiple / part / remaining part of), None if it comes from a measurement"""
+            if o.get("k") != "v" or depth > 8:
+                return None
+            if o["id"] in ints:
+                return ints[o["id"]]
+            d = fn.defs.get(o["id"])
+            if d is None:
+                return None
+            if d["op"] in ("zext", "sext", "trunc", "mul", "shl", "sub", "add", "lshr", "udiv"):
+                return declared(d["ops"][0], depth + 1)
+            if d["op"] == "phi":
+                rs = [declared(x["v"], depth + 1) for x in d["incoming"] if x["v"].get("id") != d["id"]]
+                return rs[0] if rs and all(r is not None for r in rs) else None
+            return None
+        for c in fn.calls():
+            name = c.get("callee") or ""
+            if name not in BLOCK_READERS:
+                continue
+            pa, la = BLOCK_READERS[name]
+            for k, a in enumerate(c.get("args", ())[:2] if pa is None else [c["args"][pa]]):
+                r = proot(a)
+                if r is None:
+                    continue
+                n += 1
+                dl = declared(c["args"][la]) if la is not None and la < len(c["args"]) else "no length"
+                if dl is not None:
+                    base = fn.name[1:-4] if fn.name.startswith("_") and fn.name.endswith("_chk") else fn.name
+                    report("C02:read-behind-terminator:%s:%s:%s" % (base, ptrs[r], name), "T-string-read-stops-at-its-terminator", fn.loc(c),
+                           "%s hands its string operand %s to %s with the declared maximum %s as the length: %s does not stop at the terminator, the bytes behind it are read"
+                           % (base, ptrs[r], name, dl, name))
+    return n
+
+
 def run(ck):
     prog, info, st = capcommon.run(ck, "C02", "R", 250, 45)
     prim = prim_common.primitive_rule(ck, prog, "C02", ck.report)
     sib = siblings.rule(prog, ck.report, "C02", broken=ck.fail_broken)
+    nterm = terminator_rule(prog, ck.report)
     fx = selftest(ck)
-    cov = dict(symmetric_copy_loop_pairs=sib, primitives_by_byte_accounting={k: dict(paths=v.get("paths"), loops=v.get("loops"), iteration_paths=v.get("iteration_paths"), assumed_min_count=v.get("assumed_min_count"), call_sites=v.get("call_sites")) for k, v in prim.items()},
+    cov = dict(symmetric_copy_loop_pairs=sib, block_reader_calls_on_string_operands=nterm, primitives_by_byte_accounting={k: dict(paths=v.get("paths"), loops=v.get("loops"), iteration_paths=v.get("iteration_paths"), assumed_min_count=v.get("assumed_min_count"), call_sites=v.get("call_sites")) for k, v in prim.items()},
                explanation="%d read obligations over all function definitions: %d discharged, %d outside the reach of the domain in %d functions (listed with reasons, not claimed), "
                "the rest matched against known findings or reported." % (st["total"], st["discharged"], st["outside_reach"], len(st["outside_reach_functions"])),
                obligations=st["total"], discharged=st["discharged"], outside_reach=st["outside_reach"], outside_reach_functions=st["outside_reach_functions"],
@@ -47,4 +119,9 @@ def selftest(ck):
     out["siblings"] = dict(pairs=np_, reports=got)
     if got != ["C02:sibling-loops-disagree:fx6_sym_dropped_limit:n"] or np_ != 3:
         ck.fail_broken("fixture c06.c: sibling-loop rule gave %s over %d pairs" % (got, np_))
+    got = []
+    nt = terminator_rule(prog, lambda key, *a, **k: got.append(key), funcs=[prog.funcs[n] for n in ("fx2_span_memchr_declared", "fx2_span_memchr_measured")])
+    out["terminator_rule"] = dict(calls=nt, reports=got)
+    if got != ["C02:read-behind-terminator:fx2_span_memchr_declared:src:memchr"] or nt != 2:
+        ck.fail_broken("fixture c02.c: terminator rule reported %s over %d calls" % (got, nt))
     return out
